@@ -20,7 +20,7 @@ pub struct L {
 const D: &str = "<block name='decoy'>";
 
 pub const LANGS: &[L] = &[
-    L { exts: &["py", "pyi"], line: &["#"], block: None, star: false, code: &["x = 1", "def f():\n    return 2", ""], decoy: &["s = \"<block name='decoy'>\"", "t = '</block>'"], header: "", footer: "", blank_between: false },
+    L { exts: &["py", "pyi"], line: &["#", "#", "#!"], block: None, star: false, code: &["x = 1", "def f():\n    return 2", ""], decoy: &["s = \"<block name='decoy'>\"", "t = '</block>'"], header: "", footer: "", blank_between: false },
     L { exts: &["rs"], line: &["//", "///", "//!"], block: Some(("/*", "*/")), star: true, code: &["const X: i32 = 1;", "fn f() {}", ""], decoy: &["const S: &str = \"<block name='decoy'>\";", "const T: &str = \"</block>\";"], header: "", footer: "", blank_between: false },
     L { exts: &["c", "h", "cc", "cpp"], line: &["//"], block: Some(("/*", "*/")), star: true, code: &["int x = 1;", "void f(void) {}", ""], decoy: &["const char *s = \"<block name='decoy'>\";", "const char *t = \"</block>\";"], header: "", footer: "", blank_between: false },
     L { exts: &["cs"], line: &["//", "///"], block: Some(("/*", "*/")), star: true, code: &["class A { }", ""], decoy: &["class B { string s = \"<block name='decoy'>\"; }"], header: "", footer: "", blank_between: false },
@@ -33,15 +33,15 @@ pub const LANGS: &[L] = &[
     L { exts: &["js", "jsx"], line: &["//"], block: Some(("/*", "*/")), star: true, code: &["let x = 1;", "function f() {}", ""], decoy: &["let s = \"<block name='decoy'>\";", "let t = `</block>`;"], header: "", footer: "", blank_between: false },
     L { exts: &["ts", "d.ts", "tsx"], line: &["//"], block: Some(("/*", "*/")), star: true, code: &["let x: number = 1;", "function f(): void {}", ""], decoy: &["let s: string = \"<block name='decoy'>\";"], header: "", footer: "", blank_between: false },
     L { exts: &["kt", "kts"], line: &["//"], block: Some(("/*", "*/")), star: true, code: &["val x = 1", "fun f() {}", ""], decoy: &["val s = \"<block name='decoy'>\""], header: "", footer: "", blank_between: false },
-    L { exts: &["Makefile", "makefile", "mk"], line: &["#"], block: None, star: false, code: &["X = 1", "all:\n\techo hi", ""], decoy: &["Y = \"<block name='decoy'>\""], header: "", footer: "", blank_between: false },
+    L { exts: &["Makefile", "makefile", "mk"], line: &["#", "#", "#!"], block: None, star: false, code: &["X = 1", "all:\n\techo hi", ""], decoy: &["Y = \"<block name='decoy'>\""], header: "", footer: "", blank_between: false },
     L { exts: &["md", "markdown"], line: &["[//]: # ("], block: Some(("<!--", "-->")), star: false, code: &["Some text.", "# Title", ""], decoy: &["Inline `<block name='decoy'>` code.", "```\n<!-- <block name='decoy'> -->\n```"], header: "", footer: "", blank_between: true },
     L { exts: &["php", "phtml"], line: &["//", "#"], block: Some(("/*", "*/")), star: true, code: &["$x = 1;", "function f() {}", ""], decoy: &["$s = \"<block name='decoy'>\";"], header: "<?php\n", footer: "", blank_between: false },
-    L { exts: &["rb"], line: &["#"], block: Some(("=begin", "=end")), star: false, code: &["x = 1", "def f; end", ""], decoy: &["s = \"<block name='decoy'>\""], header: "", footer: "", blank_between: false },
+    L { exts: &["rb"], line: &["#", "#", "#!"], block: Some(("=begin", "=end")), star: false, code: &["x = 1", "def f; end", ""], decoy: &["s = \"<block name='decoy'>\""], header: "", footer: "", blank_between: false },
     L { exts: &["sh", "bash"], line: &["#"], block: None, star: false, code: &["x=1", "f() { :; }", ""], decoy: &["s=\"<block name='decoy'>\"", "#! <block name='decoy'>"], header: "#!/bin/sh\n", footer: "", blank_between: false },
     L { exts: &["sql"], line: &["--"], block: Some(("/*", "*/")), star: true, code: &["SELECT 1;", ""], decoy: &["SELECT '<block name=\"decoy\">';"], header: "", footer: "", blank_between: false },
     L { exts: &["swift"], line: &["//"], block: Some(("/*", "*/")), star: true, code: &["let x = 1", "func f() {}", ""], decoy: &["let s = \"<block name='decoy'>\""], header: "", footer: "", blank_between: false },
-    L { exts: &["toml"], line: &["#"], block: None, star: false, code: &["x = 1", ""], decoy: &["s = \"<block name='decoy'>\""], header: "", footer: "", blank_between: false },
-    L { exts: &["yaml", "yml"], line: &["#"], block: None, star: false, code: &["x: 1", ""], decoy: &["s: \"<block name='decoy'>\""], header: "", footer: "", blank_between: false },
+    L { exts: &["toml"], line: &["#", "#", "#!"], block: None, star: false, code: &["x = 1", ""], decoy: &["s = \"<block name='decoy'>\""], header: "", footer: "", blank_between: false },
+    L { exts: &["yaml", "yml"], line: &["#", "#", "#!"], block: None, star: false, code: &["x: 1", ""], decoy: &["s: \"<block name='decoy'>\""], header: "", footer: "", blank_between: false },
 ];
 
 pub fn lang_for(ext: &str) -> &'static L {
